@@ -89,6 +89,7 @@ type gen struct {
 	hasVal   map[uint32]map[string]bool // committed values known to the generator
 	txnRes   map[string]bool            // (off|col) that had a possibly resizing merge in the open transaction
 	txnSet   map[string]bool            // (off|col) written in the open transaction
+	everVal  map[string]bool            // (off|col) ever written on the primary
 }
 
 func (g *gen) emit(line string) string {
@@ -97,7 +98,44 @@ func (g *gen) emit(line string) string {
 	if out == "panic" || out == "dead" {
 		g.dead = true
 	}
+	g.noteWrites(line, out)
 	return out
+}
+
+// noteWrites remembers which (offset, column) slots of the primary were ever written (committed or not): a
+// merge as the first write is only well-defined on a slot that never held anything (finding D11 otherwise)
+func (g *gen) noteWrites(line, out string) {
+	f := strings.Fields(line)
+	if len(f) < 4 || f[0] != "p" {
+		return
+	}
+	var off uint32
+	var acts []string
+	switch f[2] {
+	case "at":
+		v, err := strconv.ParseUint(f[3], 10, 32)
+		if err != nil {
+			return
+		}
+		off, acts = uint32(v), f[4:]
+	case "insert", "inskey", "upskey", "qkey":
+		o, ok := parseOff(out)
+		if !ok {
+			return
+		}
+		off, acts = o, f[3:]
+	default:
+		return
+	}
+	if g.everVal == nil {
+		g.everVal = map[string]bool{}
+	}
+	for _, a := range acts {
+		p := strings.Split(a, ":")
+		if len(p) == 3 && (p[0] == "set" || p[0] == "merge") {
+			g.everVal[fmt.Sprintf("%d|%s", off, p[1])] = true
+		}
+	}
 }
 
 func (g *gen) feat(f string) { g.feats[f] = true; g.rep.count("gen:" + f) }
@@ -208,8 +246,12 @@ func (g *gen) writeActionAt(off uint32, known bool, allowMerge bool) string {
 		if known && g.txnRes[key] {
 			return ""
 		}
-		if merge && !(known && g.hasVal[off][c.name] && !g.txnSet[key]) {
+		fresh := known && g.live[off] && !g.everVal[key] // a live row's slot that never held anything: merges onto the zero value
+		if merge && !(known && (g.hasVal[off][c.name] || fresh) && !g.txnSet[key]) {
 			merge = false
+		}
+		if merge && fresh && !g.hasVal[off][c.name] {
+			g.feat("merge-first-write-fresh-slot")
 		}
 		if merge && g.hasMergeResize(c) {
 			g.txnRes[key] = true
